@@ -383,3 +383,528 @@ Proof.
     intro i. rewrite !cnt_proc_refs. proj_cbn. rewrite cnt_refs_list_cons, E, cnt_nil. lia.
   - inversion H; subst x'. split; [exact X|apply stable_refl].
 Qed.
+
+(* ------------------------------------------------------------------ *)
+(* 5. spawn_process                                                    *)
+(* ------------------------------------------------------------------ *)
+
+Lemma inject_caps_cnt data : forall caps h acc h' locals,
+  WFh h -> inject_caps h caps data acc = Val (h', locals) ->
+  WFh h' /\ stable h h' /\ cb_refs h' = cb_refs h /\
+  forall i, rc_at h' i + cnt i (refs_list acc) = rc_at h i + cnt i (refs_list locals).
+Proof.
+  induction caps as [|c r IH]; intros h acc h' locals W H; cbn [inject_caps] in H.
+  - inversion H; subst. split; [exact W|]. split; [apply stable_refl|]. split; [reflexivity|].
+    intro i; lia.
+  - apply obind_val in H as ([h1 c1] & Hi & H). apply obind_val in H as (h2 & Hr & H).
+    destruct (inject_cnt _ _ _ _ _ W Hi) as (W1 & St1 & Cb1 & Rc1).
+    unfold retain in Hr. destruct (retain_l_cnt _ _ _ W1 Hr) as (W2 & St2 & Cb2 & Rc2).
+    destruct (IH _ _ _ _ W2 H) as (W' & St' & Cb' & Rc').
+    split; [exact W'|].
+    split; [eapply stable_trans; [exact St1|eapply stable_trans; [exact St2|exact St']]|].
+    split; [congruence|]. intro i. specialize (Rc' i).
+    rewrite cnt_refs_list_app, cnt_refs_list_cons, cnt_refs_list_nil in Rc'.
+    rewrite Rc2, Rc1 in Rc'. lia.
+Qed.
+
+Lemma spawn_process_XInv x pid fn caps arg data pers x' :
+  XInv x -> get_proc x pid = None -> spawn_process x pid fn caps arg data pers = Val x' ->
+  XInv x' /\ xstable x x'.
+Proof.
+  intros X G H. pose proof X as (W & R & ND). unfold spawn_process in H.
+  destruct fn as [f|].
+  - apply obind_val in H as ([h1 locals] & Hc & H).
+    apply obind_val in H as ([h2 a1] & Hi & H).
+    apply obind_val in H as (h3 & Hr & H). inversion H; subst x'; clear H.
+    destruct (inject_caps_cnt _ _ _ _ _ _ W Hc) as (W1 & St1 & Cb1 & Rc1).
+    destruct (inject_cnt _ _ _ _ _ W1 Hi) as (W2 & St2 & Cb2 & Rc2).
+    unfold retain in Hr. destruct (retain_l_cnt _ _ _ W2 Hr) as (W3 & St3 & Cb3 & Rc3).
+    split.
+    + apply XInv_put; [exact ND|]. split; [exact W3|]. intro i.
+      specialize (Rc1 i). rewrite cnt_refs_list_nil in Rc1.
+      rewrite (R i), (all_refs_none _ _ G i) in Rc1.
+      rewrite Rc3, Rc2, Cb3, Cb2, Cb1, cnt_proc_refs. proj_cbn.
+      cbn [await_refs flat_map].
+      rewrite cnt_refs_list_cons, ?cnt_refs_list_nil, ?cnt_nil. lia.
+    + unfold xstable. cbn [x_heap put_proc put_heap].
+      eapply stable_trans; [exact St1|]. eapply stable_trans; [exact St2|exact St3].
+  - inversion H; subst x'; clear H. split; [|apply stable_refl].
+    change (put_proc x pid ?q) with (put_proc (put_heap x (x_heap x)) pid q).
+    apply XInv_put; [exact ND|]. apply XInv_take_none; [exact X|exact G|reflexivity].
+Qed.
+
+Lemma empty_heap_WF : WFh empty_heap.
+Proof.
+  unfold WFh, empty_heap; cbn [cells rcs free pending freed length].
+  split; [reflexivity|]. split; [reflexivity|]. split; [constructor|]. split; [|split].
+  - intros i. split; [intros []|]. intros [Hi _]. lia.
+  - intros i Hf. unfold freed_at in Hf; simpl in Hf. destruct i; discriminate Hf.
+  - intros i [].
+Qed.
+
+Example empty_exec_XInv : XInv (mkExec empty_heap []).
+Proof.
+  split; [exact empty_heap_WF|]. split.
+  - intro i. destruct i; reflexivity.
+  - constructor.
+Qed.
+
+(* finding F46: every capture and the argument are injected with the WHOLE heap_data, so each
+   further injection allocates copies nobody references: count 0, not freed, not queued *)
+Example spawn_orphans_refuted :
+  exists x x', XInv x /\ NoOrphan (x_heap x) /\
+    spawn_process x 1 (Some 0) [VBin 0] (VInt 0%Z) [[1%Z]] false = Val x' /\
+    ~ NoOrphan (x_heap x').
+Proof.
+  exists (mkExec empty_heap []). eexists. split; [|split; [|split]].
+  - exact empty_exec_XInv.
+  - intros i Hi. cbn in Hi. lia.
+  - vm_compute. reflexivity.
+  - intro NO. destruct (NO 1) as [Hf|Hp].
+    + cbn. lia.
+    + reflexivity.
+    + vm_compute in Hf. discriminate Hf.
+    + vm_compute in Hp. exact Hp.
+Qed.
+
+(* ------------------------------------------------------------------ *)
+(* 6. replace_locals / compact_locals / release_orphan_locals          *)
+(* ------------------------------------------------------------------ *)
+
+Lemma replace_locals_XInv x pid new x' :
+  XInv x -> replace_locals x pid new = Val x' -> XInv x' /\ xstable x x'.
+Proof.
+  intros X H. pose proof X as (W & R & ND). unfold replace_locals in H.
+  destruct (get_proc x pid) as [p|] eqn:G.
+  - apply obind_val in H as (h1 & Hr & H). apply obind_val in H as (h2 & Hl & H).
+    inversion H; subst x'; clear H.
+    unfold retain_vals in Hr. unfold release_vals in Hl.
+    destruct (retain_l_cnt _ _ _ W Hr) as (W1 & St1 & Cb1 & Rc1).
+    destruct (release_l_cnt _ _ _ W1 Hl) as (W2 & St2 & Cb2 & Rc2).
+    destruct (XInv_take _ _ _ X G) as [_ Hp].
+    split.
+    + apply XInv_put; [exact ND|]. split; [exact W2|]. intro i.
+      specialize (Rc2 i). rewrite Rc1, Hp, cnt_proc_refs in Rc2.
+      rewrite Cb2, Cb1, cnt_proc_refs. proj_cbn. lia.
+    + unfold xstable. cbn [x_heap put_proc put_heap]. eapply stable_trans; [exact St1|exact St2].
+  - inversion H; subst x'. split; [exact X|apply stable_refl].
+Qed.
+
+Lemma compact_locals_XInv x pid keep x' :
+  XInv x -> compact_locals x pid keep = Val x' -> XInv x' /\ xstable x x'.
+Proof.
+  intros X H. unfold compact_locals in H.
+  destruct (get_proc x pid) as [p|].
+  - destruct (pick_locals (p_locals p) keep) as [vs|].
+    + eapply replace_locals_XInv; eauto.
+    + inversion H; subst x'. split; [exact X|apply stable_refl].
+  - inversion H; subst x'. split; [exact X|apply stable_refl].
+Qed.
+
+Lemma vnil_refs : refs_of vnil = [].
+Proof. reflexivity. Qed.
+
+Lemma orphan_split_cnt keep i : forall l idx l' o,
+  orphan_split l idx keep = (l', o) ->
+  cnt i (refs_list l) = cnt i (refs_list l') + cnt i (refs_list o).
+Proof.
+  induction l as [|v t IH]; intros idx l' o H; cbn [orphan_split] in H.
+  - inversion H; subst. reflexivity.
+  - destruct (orphan_split t (S idx) keep) as [l1 o1] eqn:E. specialize (IH _ _ _ E).
+    destruct (existsb (Nat.eqb idx) keep); inversion H; subst;
+      rewrite !cnt_refs_list_cons, ?vnil_refs, ?cnt_nil; lia.
+Qed.
+
+Lemma release_orphan_locals_XInv x pid keep x' :
+  XInv x -> release_orphan_locals x pid keep = Val x' -> XInv x' /\ xstable x x'.
+Proof.
+  intros X H. pose proof X as (W & R & ND). unfold release_orphan_locals in H.
+  destruct (get_proc x pid) as [p|] eqn:G.
+  - destruct (orphan_split (p_locals p) 0 keep) as [l' orphans] eqn:Eo.
+    apply obind_val in H as (h1 & Hl & H). inversion H; subst x'; clear H.
+    unfold release_vals in Hl.
+    destruct (release_l_cnt _ _ _ W Hl) as (W1 & St1 & Cb1 & Rc1).
+    destruct (XInv_take _ _ _ X G) as [_ Hp].
+    split.
+    + apply XInv_put; [exact ND|]. split; [exact W1|]. intro i.
+      specialize (Rc1 i). rewrite Hp, cnt_proc_refs in Rc1.
+      rewrite (orphan_split_cnt _ i _ _ _ _ Eo) in Rc1.
+      rewrite Cb1, cnt_proc_refs. proj_cbn. lia.
+    + exact St1.
+  - inversion H; subst x'. split; [exact X|apply stable_refl].
+Qed.
+
+(* ------------------------------------------------------------------ *)
+(* 7. fail_result / resume_process                                     *)
+(* ------------------------------------------------------------------ *)
+
+Lemma XInv_put_same x pid p p' :
+  XInv x -> get_proc x pid = Some p -> (forall i, cnt i (proc_refs p') = cnt i (proc_refs p)) ->
+  XInv (put_proc x pid p').
+Proof.
+  intros X G E. pose proof X as (W & R & ND).
+  change (put_proc x pid p') with (put_proc (put_heap x (x_heap x)) pid p').
+  apply XInv_put; [exact ND|]. eapply Inv_refs_eq; [exact E|exact (XInv_take _ _ _ X G)].
+Qed.
+
+Lemma fail_result_XInv x pid :
+  XInv x -> (forall p, get_proc x pid = Some p -> result_refs (p_result p) = []) ->
+  XInv (fail_result x pid).
+Proof.
+  intros X Hr. unfold fail_result.
+  destruct (get_proc x pid) as [p|] eqn:G; [|exact X].
+  apply (XInv_put_same _ _ _ _ X G). intro i. rewrite !cnt_proc_refs. proj_cbn.
+  rewrite (Hr p eq_refl). lia.
+Qed.
+
+(* finding F45h: worker.rs notify_result(Err) overwrites an Ok result without releasing it *)
+Definition fr_exec : exec :=
+  mkExec nr_heap [(0, mkProc [] [] [] false [] (Some (Some (VBin 0))) None [])].
+
+Example fr_exec_XInv : XInv fr_exec.
+Proof.
+  split; [exact nr_heap_WF|]. split.
+  - intro i. destruct i as [|i]; [reflexivity|].
+    replace (rc_at (x_heap fr_exec) (S i)) with 0 by (destruct i; reflexivity).
+    symmetry. apply cnt_zero_notIn. vm_compute. intros [H|[]]. discriminate H.
+  - cbn. constructor; [intros []|constructor].
+Qed.
+
+Example fail_result_refuted : exists x, XInv x /\ ~ RC (fail_result x 0).
+Proof.
+  exists fr_exec. split; [exact fr_exec_XInv|].
+  intro R. specialize (R 0). vm_compute in R. discriminate R.
+Qed.
+
+Lemma resume_process_XInv x pid fn : XInv x -> XInv (resume_process x pid fn).
+Proof.
+  intros X. unfold resume_process.
+  destruct (get_proc x pid) as [p|] eqn:G; [|exact X].
+  destruct (p_result p) as [[v|]|] eqn:Er; try exact X.
+  apply (XInv_put_same _ _ _ _ X G). intro i. rewrite !cnt_proc_refs. proj_cbn.
+  rewrite Er, cnt_refs_list_cons. cbn [result_refs]. rewrite cnt_nil. lia.
+Qed.
+
+(* ------------------------------------------------------------------ *)
+(* 9. no use after free                                                *)
+(* ------------------------------------------------------------------ *)
+
+Theorem no_use_after_free_x x :
+  XInv x -> forall i, freed_at (x_heap x) i = true -> cnt i (all_refs x) = 0.
+Proof.
+  intros (W & R & _) i Hf. rewrite <- (R i).
+  destruct W as (_ & _ & _ & _ & W5 & _). apply W5. exact Hf.
+Qed.
+
+(* ------------------------------------------------------------------ *)
+(* 10. non-vacuity: two processes sharing a slot, one slot a slice     *)
+(* ------------------------------------------------------------------ *)
+
+Definition sh_heap : heap :=
+  mkHeap [Owned [1%Z; 2%Z; 3%Z]; Slice (Owned [1%Z; 2%Z; 3%Z]) 1%Z 2%Z] [3; 1] [] []
+         [false; false] [].
+Definition sh_exec : exec :=
+  mkExec sh_heap
+    [(1, mkProc [VBin 0] [VTuple 0 [VInt 7%Z; VBin 0]] [] false [] None None []);
+     (2, mkProc [] [] [] false [VBin 0] (Some (Some (VBin 1))) None [])].
+
+Lemma sh_heap_WF : WFh sh_heap.
+Proof.
+  unfold WFh, sh_heap; cbn [cells rcs free pending freed length].
+  split; [reflexivity|]. split; [reflexivity|]. split; [constructor|].
+  split; [|split].
+  - intros i. split; [intros []|]. intros [Hi Hf].
+    destruct i as [|[|i]]; [discriminate Hf|discriminate Hf|lia].
+  - intros i Hf. destruct i as [|[|i]]; [discriminate Hf|discriminate Hf|].
+    unfold freed_at in Hf; simpl in Hf. destruct i; discriminate Hf.
+  - intros i [].
+Qed.
+
+Example shared_sliced_RC : XInv sh_exec.
+Proof.
+  split; [exact sh_heap_WF|]. split.
+  - intro i. destruct i as [|[|i]]; [reflexivity|reflexivity|].
+    replace (rc_at (x_heap sh_exec) (S (S i))) with 0 by (destruct i; reflexivity).
+    symmetry. apply cnt_zero_notIn. vm_compute.
+    intros [H|[H|[H|[H|[]]]]]; discriminate H.
+  - cbn. constructor.
+    + intros [H|[]]. discriminate H.
+    + constructor; [intros []|constructor].
+Qed.
+
+Example shared_sliced_bytes :
+  bytes_at (x_heap sh_exec) 1 = [2%Z; 3%Z] /\ cnt 0 (all_refs sh_exec) = 3 /\ cnt 1 (all_refs sh_exec) = 1.
+Proof. split; [reflexivity|split; reflexivity]. Qed.
+
+(* non-vacuity of the entry-point theorems: a message carrying a fresh binary is delivered to
+   process 2 of the shared executor (slot 2 is allocated and counted once) *)
+Example notify_message_live :
+  exists x', notify_message sh_exec 2 (VBin 0) [[9%Z]] = Val x' /\ XInv x' /\
+             rc_at (x_heap x') 2 = 1 /\ rc_at (x_heap x') 0 = 3.
+Proof.
+  destruct (notify_message sh_exec 2 (VBin 0) [[9%Z]]) as [x'|e|n] eqn:E;
+    [|vm_compute in E; discriminate E|vm_compute in E; discriminate E].
+  exists x'. split; [reflexivity|].
+  split; [exact (proj1 (notify_message_XInv _ _ _ _ _ shared_sliced_RC E))|].
+  vm_compute in E. inversion E; subst x'. split; reflexivity.
+Qed.
+
+(* ------------------------------------------------------------------ *)
+(* 8. Executor::step                                                   *)
+(* ------------------------------------------------------------------ *)
+
+Lemma fail_proc_Inv o h p : result_refs (p_result p) = [] -> Inv o h p -> Inv o h (fail_proc p).
+Proof.
+  intros E. apply Inv_refs_eq. intro i. rewrite !cnt_proc_refs. proj_cbn. rewrite E. lia.
+Qed.
+
+(* completion: notify every awaiter (with the fix of F9) *)
+Lemma notify_awaiters_XInv pid res : forall ws x x',
+  XInv x ->
+  (res = None -> forall w p, In w ws -> get_proc x w = Some p -> result_refs (p_result p) = []) ->
+  notify_awaiters true x pid res ws = Val x' -> XInv x' /\ xstable x x'.
+Proof.
+  induction ws as [|w rest IH]; intros x x' X Hf H; cbn [notify_awaiters] in H.
+  - inversion H; subst. split; [exact X|apply stable_refl].
+  - apply obind_val in H as (x1 & H1 & H).
+    assert (S1 : XInv x1 /\ xstable x x1 /\
+                 (res = None -> forall w' p, In w' rest -> get_proc x1 w' = Some p ->
+                                             result_refs (p_result p) = [])).
+    { destruct res as [v|].
+      - destruct (notify_result true x w pid v []) as [xa|e|n] eqn:En;
+          cbv beta iota in H1; inversion H1; subst x1.
+        + destruct (notify_result_XInv _ _ _ _ _ _ X En) as [Xa Sa].
+          split; [exact Xa|]. split; [exact Sa|]. intros Hn; discriminate Hn.
+        + split; [exact X|]. split; [apply stable_refl|]. intros Hn; discriminate Hn.
+      - destruct (get_proc x w) as [p|] eqn:G; cbv beta iota in H1; inversion H1; subst x1.
+        + split; [|split].
+          * apply (XInv_put_same _ _ _ _ X G). intro i. rewrite !cnt_proc_refs. proj_cbn.
+            rewrite (Hf eq_refl w p (or_introl eq_refl) G). lia.
+          * apply stable_refl.
+          * intros _ w' p' Hin G'. rewrite get_put_proc in G'.
+            destruct (w' =? w).
+            { inversion G'; subst p'. reflexivity. }
+            { exact (Hf eq_refl w' p' (or_intror Hin) G'). }
+        + split; [exact X|]. split; [apply stable_refl|].
+          intros _ w' p' Hin G'. exact (Hf eq_refl w' p' (or_intror Hin) G'). }
+    destruct S1 as (X1 & St1 & Hf1). destruct (IH _ _ X1 Hf1 H) as (X' & St').
+    split; [exact X'|]. unfold xstable in *. eapply stable_trans; [exact St1|exact St'].
+Qed.
+
+Lemma notify_awaiters_Some_XInv pid v ws x x' :
+  XInv x -> notify_awaiters true x pid (Some v) ws = Val x' -> XInv x' /\ xstable x x'.
+Proof.
+  intros X H. eapply notify_awaiters_XInv; [exact X| |exact H]. intros Hn; discriminate Hn.
+Qed.
+
+Lemma ppf_XInv x h0 : XInv x -> ppf (x_heap x) = Val h0 -> XInv (put_heap x h0).
+Proof.
+  intros X Hp. pose proof X as (W & R & ND).
+  destruct (ppf_spec _ _ W Hp) as (W0 & Ercs & _ & Ecb & _).
+  apply XInv_put_heap; [exact X|exact W0| |].
+  - intro i. unfold rc_at. rewrite Ercs. reflexivity.
+  - unfold cb_refs. rewrite Ecb. reflexivity.
+Qed.
+
+(* process_pending_free only reclaims slots nobody holds *)
+Lemma ppf_live x h0 : XInv x -> ppf (x_heap x) = Val h0 ->
+  forall i, cnt i (all_refs x) > 0 ->
+    i < length (cells h0) /\ freed_at h0 i = false /\ bytes_at h0 i = bytes_at (x_heap x) i.
+Proof.
+  intros X Hp i Hc. pose proof X as (W & R & ND).
+  destruct (ppf_spec _ _ W Hp) as (W0 & Ercs & _ & Ecb & Elen & Hiff & _).
+  rewrite <- (R i) in Hc.
+  pose proof W as (L1 & _ & _ & _ & W5 & _).
+  assert (Hf0 : freed_at h0 i = false).
+  { destruct (freed_at h0 i) eqn:E; [|reflexivity].
+    apply Hiff in E as [E|[_ E]]; [apply W5 in E|]; lia. }
+  split; [|split; [exact Hf0|]].
+  - rewrite Elen, <- L1.
+    destruct (Nat.lt_ge_cases i (length (rcs (x_heap x)))) as [Hl|Hg]; [exact Hl|].
+    unfold rc_at in Hc. rewrite nth_overflow in Hc by exact Hg. lia.
+  - apply (ppf_preserves_live _ _ W Hp i Hf0).
+Qed.
+
+Lemma truncate_locals_good o n h p : Inv o h p -> Good o h p (truncate_locals n h p).
+Proof.
+  intros Iv. unfold truncate_locals.
+  destruct (n <? length (p_locals p));
+    [|cbn [Good]; split; [exact Iv|split; [apply stable_refl|reflexivity]]].
+  destruct (release_vals h (skipn n (p_locals p))) as [h'|e|s] eqn:E; cbn [Good];
+    [|split; [exact Iv|split; [apply stable_refl|reflexivity]]|exact Logic.I].
+  destruct Iv as [W Hp]. unfold release_vals in E.
+  destruct (release_l_cnt _ _ _ W E) as (W' & St & Cb & Rc).
+  split; [|split; [exact St|reflexivity]]. split; [exact W'|]. intro i.
+  specialize (Rc i). rewrite Hp, cnt_proc_refs in Rc.
+  rewrite (refs_list_firstn_skipn i n (p_locals p)) in Rc.
+  rewrite Cb, cnt_proc_refs. proj_cbn. lia.
+Qed.
+
+Section Step.
+Variable fx : bool.
+Variable P : hprogram.
+Variable instr_pre : proc -> instr -> Prop.
+Hypothesis exec_instr_good : forall pid i x o h p,
+  instr_pre p i -> Inv o h p -> Good o h p (exec_instr fx P pid i x h p).
+
+(* the precondition of every instruction the slice executes, along the recursion of run_slice *)
+Fixpoint SlicePre (pid fuel : nat) (xs : list hext) (dflt : hext) (h : heap) (p : proc) : Prop :=
+  match fuel with
+  | O => True
+  | S fuel' =>
+      match current_instr P p with
+      | Val (Some i) =>
+          instr_pre p i /\
+          match exec_instr fx P pid i (match xs with e :: _ => e | [] => dflt end) h p with
+          | MPanic _ => True
+          | MErr _ h' p' => SlicePre pid fuel' (tl xs) dflt h' (fail_proc p')
+          | MVal (Some _) _ _ => True
+          | MVal None h' p' => SlicePre pid fuel' (tl xs) dflt h' p'
+          end
+      | _ => True
+      end
+  end.
+
+Lemma run_slice_good pid o : forall fuel xs dflt h p h' p',
+  SlicePre pid fuel xs dflt h p -> Inv o h p -> result_refs (p_result p) = [] ->
+  run_slice fx P pid fuel xs dflt h p = Val (h', p') ->
+  Inv o h' p' /\ stable h h' /\ result_refs (p_result p') = [].
+Proof.
+  induction fuel as [|fuel IH]; intros xs dflt h p h' p' Pre Iv Hres H; cbn [run_slice] in H.
+  - inversion H; subst. split; [exact Iv|]. split; [apply stable_refl|exact Hres].
+  - cbn [SlicePre] in Pre. cbv zeta in H.
+    destruct (current_instr P p) as [[i|]|e|n] eqn:Ci; cbn [obind] in H; try discriminate H.
+    + destruct Pre as [Hpre Pre].
+      pose proof (exec_instr_good pid i (match xs with e :: _ => e | [] => dflt end) o h p Hpre Iv) as G.
+      destruct (exec_instr fx P pid i (match xs with e :: _ => e | [] => dflt end) h p)
+        as [[a|] h1 p1|e h1 p1|n]; cbn [Good] in G.
+      * inversion H; subst. destruct G as (I1 & St1 & Er).
+        split; [exact I1|]. split; [exact St1|]. rewrite Er; exact Hres.
+      * destruct G as (I1 & St1 & Er).
+        assert (Hr1 : result_refs (p_result p1) = []) by (rewrite Er; exact Hres).
+        destruct (IH _ _ _ _ _ _ Pre I1 Hr1 H) as (I2 & St2 & R2).
+        split; [exact I2|]. split; [eapply stable_trans; [exact St1|exact St2]|exact R2].
+      * destruct G as (I1 & St1 & Er).
+        assert (Hr1 : result_refs (p_result p1) = []) by (rewrite Er; exact Hres).
+        destruct (IH _ _ _ _ _ _ Pre (fail_proc_Inv _ _ _ Hr1 I1) eq_refl H) as (I2 & St2 & R2).
+        split; [exact I2|]. split; [eapply stable_trans; [exact St1|exact St2]|exact R2].
+      * discriminate H.
+    + inversion H; subst. split; [exact Iv|]. split; [apply stable_refl|exact Hres].
+Qed.
+
+Lemma auto_pop_good o : forall fuel h p h' p',
+  Inv o h p -> auto_pop P fuel h p = Val (h', p') ->
+  Inv o h' p' /\ stable h h' /\ p_result p' = p_result p.
+Proof.
+  induction fuel as [|fuel IH]; intros h p h' p' Iv H; cbn [auto_pop] in H.
+  - inversion H; subst. split; [exact Iv|]. split; [apply stable_refl|reflexivity].
+  - destruct (current_instr P p) as [[i|]|e|n]; cbn [obind] in H; try discriminate H.
+    + inversion H; subst. split; [exact Iv|]. split; [apply stable_refl|reflexivity].
+    + destruct (p_frames p) as [|fr rest] eqn:Ef.
+      * inversion H; subst. split; [exact Iv|]. split; [apply stable_refl|reflexivity].
+      * cbv zeta in H.
+        match type of H with context [auto_pop P fuel h ?q] => set (p2 := q) in H end.
+        assert (E2 : forall i, cnt i (proc_refs p2) = cnt i (proc_refs p)).
+        { intro i. subst p2.
+          match goal with |- context [if ?b then _ else _] => destruct b end; reflexivity. }
+        assert (R2 : p_result p2 = p_result p).
+        { subst p2.
+          match goal with |- context [if ?b then _ else _] => destruct b end; reflexivity. }
+        assert (Iv2 : Inv o h p2) by (eapply Inv_refs_eq; [exact E2|exact Iv]).
+        clearbody p2.
+        match type of H with (if ?c then _ else _) = _ => destruct c end.
+        { pose proof (truncate_locals_good o (fr_base fr) h p2 Iv2) as G.
+          destruct (truncate_locals (fr_base fr) h p2) as [u h1 q1|e h1 q1|n]; cbn [Good] in G;
+            [| |discriminate H];
+            destruct G as (I1 & St1 & Er); destruct (IH _ _ _ _ I1 H) as (I3 & St3 & R3);
+            (split; [exact I3|]; split; [eapply stable_trans; [exact St1|exact St3]|congruence]). }
+        { destruct (IH _ _ _ _ Iv2 H) as (I3 & St3 & R3).
+          split; [exact I3|]. split; [exact St3|congruence]. }
+Qed.
+
+Theorem exec_step_XInv x pid q xs dflt x' :
+  fx = true -> XInv x ->
+  (forall pid0 p0 h0, pid = Some pid0 -> get_proc x pid0 = Some p0 -> ppf (x_heap x) = Val h0 ->
+     result_refs (p_result p0) = [] /\ SlicePre pid0 q xs dflt h0 p0) ->
+  (forall pid0 w pw, pid = Some pid0 -> w <> pid0 -> get_proc x w = Some pw ->
+     has_key pid0 (p_await pw) = true -> result_refs (p_result pw) = []) ->
+  exec_step fx P x pid q xs dflt = Val x' ->
+  XInv x' /\
+  (forall i, cnt i (all_refs x) > 0 -> cnt i (all_refs x') > 0 ->
+     bytes_at (x_heap x') i = bytes_at (x_heap x) i /\ freed_at (x_heap x') i = false).
+Proof.
+  intros Efx X Hside Haw H. unfold exec_step in H.
+  apply obind_val in H as (h0 & Hp & H).
+  pose proof (ppf_XInv _ _ X Hp) as X0. pose proof (ppf_live _ _ X Hp) as Hlive.
+  assert (Main : XInv x' /\ stable h0 (x_heap x')).
+  { destruct pid as [pid0|]; [|inversion H; subst; split; [exact X0|apply stable_refl]].
+    destruct (get_proc x pid0) as [p0|] eqn:G;
+      [|inversion H; subst; split; [exact X0|apply stable_refl]].
+    destruct (Hside pid0 p0 h0 eq_refl G Hp) as [Hres Pre].
+    apply obind_val in H as ([h1 p1] & Hrun & H).
+    apply obind_val in H as ([h2 p2] & Hpop & H).
+    assert (I0 : Inv (others x pid0) h0 p0) by exact (XInv_take (put_heap x h0) pid0 p0 X0 G).
+    destruct (run_slice_good _ _ _ _ _ _ _ _ _ Pre I0 Hres Hrun) as (I1 & St1 & Hres1).
+    destruct (auto_pop_good _ _ _ _ _ _ I1 Hpop) as (I2 & St2 & Er2).
+    assert (St02 : stable h0 h2) by (eapply stable_trans; [exact St1|exact St2]).
+    pose proof X as (_ & _ & ND).
+    assert (Hres2 : result_refs (p_result p2) = []) by (rewrite Er2; exact Hres1).
+    destruct (p_frames p2) as [|fr2 rest2] eqn:Ef2.
+    2: { inversion H; subst x'. split; [apply XInv_put; assumption|exact St02]. }
+    assert (HB : forall x'',
+      match p_stack p2 with
+      | [] => Val (put_proc (put_heap x h2) pid0 (set_result p2 (Some None)))
+      | v :: st =>
+          notify_awaiters fx
+            (put_proc (put_heap x h2) pid0 (set_result (set_stack p2 st) (Some (Some v)))) pid0 (Some v)
+            (map fst (filter (fun e => has_key pid0 (p_await (snd e)))
+               (x_procs (put_proc (put_heap x h2) pid0 (set_result (set_stack p2 st) (Some (Some v)))))))
+      end = Val x'' -> XInv x'' /\ stable h0 (x_heap x'')).
+    { intros x'' HH. destruct (p_stack p2) as [|v st] eqn:Es.
+      - inversion HH; subst x''. split; [|exact St02]. apply XInv_put; [exact ND|].
+        eapply Inv_refs_eq; [|exact I2]. intro i. rewrite !cnt_proc_refs. proj_cbn.
+        rewrite Hres2. lia.
+      - assert (X1 : XInv (put_proc (put_heap x h2) pid0 (set_result (set_stack p2 st) (Some (Some v))))).
+        { apply XInv_put; [exact ND|]. eapply Inv_refs_eq; [|exact I2]. intro i.
+          rewrite !cnt_proc_refs. proj_cbn. rewrite Es, Hres2, cnt_refs_list_cons, cnt_nil. lia. }
+        rewrite Efx in HH.
+        destruct (notify_awaiters_Some_XInv _ _ _ _ _ X1 HH) as [X'' Sx].
+        split; [exact X''|]. eapply stable_trans; [exact St02|exact Sx]. }
+    destruct (p_result p2) as [[rv|]|] eqn:Er.
+    - exact (HB _ H).
+    - rewrite Efx in H.
+      assert (X1 : XInv (put_proc (put_heap x h2) pid0 p2)) by (apply XInv_put; assumption).
+      assert (Gp : get_proc (put_proc (put_heap x h2) pid0 p2) pid0 = Some p2).
+      { rewrite get_put_proc, Nat.eqb_refl. reflexivity. }
+      assert (Hfail : @None value = None -> forall w pw,
+                In w (map fst (filter (fun e => has_key pid0 (p_await (snd e)))
+                                 (x_procs (put_proc (put_heap x h2) pid0 p2)))) ->
+                get_proc (put_proc (put_heap x h2) pid0 p2) w = Some pw ->
+                result_refs (p_result pw) = []).
+      { intros _ w pw Hin Gw.
+        apply in_map_iff in Hin as ([w0 pw0] & Ew & Hin). cbn [fst] in Ew; subst w0.
+        apply filter_In in Hin as [Hin Hk]. cbn [snd] in Hk.
+        pose proof X1 as (_ & _ & ND1).
+        pose proof (assoc_get_of_In _ _ _ ND1 Hin) as Gw'. fold (get_proc (put_proc (put_heap x h2) pid0 p2) w) in Gw'.
+        rewrite Gw in Gw'. inversion Gw'; subst pw0.
+        destruct (Nat.eq_dec w pid0) as [->|Hne].
+        - rewrite Gp in Gw. inversion Gw; subst pw. rewrite Er. reflexivity.
+        - rewrite get_put_proc in Gw. apply Nat.eqb_neq in Hne. rewrite Hne in Gw.
+          apply Nat.eqb_neq in Hne. exact (Haw pid0 w pw eq_refl Hne Gw Hk). }
+      destruct (notify_awaiters_XInv _ _ _ _ _ X1 Hfail H) as [X'' Sx].
+      split; [exact X''|]. eapply stable_trans; [exact St02|exact Sx].
+    - exact (HB _ H). }
+  destruct Main as [X' St']. split; [exact X'|]. intros i Hc _.
+  destruct (Hlive i Hc) as (Hlt & Hf0 & Hb0). destruct St' as [_ Sb].
+  destruct (Sb i Hlt Hf0) as [Hf' Hb']. split; [congruence|exact Hf'].
+Qed.
+
+End Step.
+
+Print Assumptions exec_step_XInv.
+Print Assumptions spawn_process_XInv.
+Print Assumptions notify_result_XInv.
+Print Assumptions notify_result_refuted.
+Print Assumptions spawn_orphans_refuted.
+Print Assumptions fail_result_refuted.
+Print Assumptions shared_sliced_RC.
